@@ -9,7 +9,7 @@ use std::os::unix::ffi::OsStringExt;
 use vcore::drive::{prop_worker, Verdict};
 use vcore::rt::{self, digest_str, Acc, Args, Report};
 
-const RULE: &str = "Exhaustive cross product global {Auto, AlwaysAnsi, Always, Never} x NO_COLOR {unset,'','0','1'} x CLICOLOR_FORCE {unset,'','0','1'} x CLICOLOR {unset,'','0','1'} x TERM {unset,'','dumb','xterm-256color'} x CI {unset,'','true'} x COLORTERM {unset,'truecolor','24bit'} (which must not influence the decision) x stream {Vec<u8>, regular file, pipe (non-terminals), pty master (terminal)} = 9216 configurations x 2 stream classes (terminal, non-terminal), enumerated in this single-threaded process; plus seeded random values per variable (whitespace, '00', 'false', non-UTF-8 bytes, long strings); COLORTERM values and the clap flag enumerated separately. Oracle: the decision list of the property as a pure function of (global, environment, is-terminal); probes against their published conventions. Non-trivial = global is Auto and at least one variable is set (distinct by configuration).";
+const RULE: &str = "Exhaustive cross product global {Auto, AlwaysAnsi, Always, Never} x NO_COLOR {unset,'','0','1'} x CLICOLOR_FORCE {unset,'','0','1'} x CLICOLOR {unset,'','0','1'} x TERM {unset,'','dumb','xterm-256color'} x CI {unset,'','true'} x COLORTERM {unset,'truecolor','24bit'} (which must not influence the decision) x stream {Vec<u8>, regular file, pipe (non-terminals), pty master (terminal)} = 9216 configurations x 2 stream classes (terminal, non-terminal), enumerated in this single-threaded process; plus seeded random values per variable (whitespace, '00', 'false', non-UTF-8 bytes, long strings); COLORTERM values and the clap flag enumerated separately; the terminal is also presented as Box<File> and &mut File, and - in a child process whose stdout/stderr are a pty slave - as Stdout, StdoutLock, Stderr, StderrLock, Box<Stdout>. Oracle: the decision list of the property as a pure function of (global, environment, is-terminal); probes against their published conventions. Non-trivial = global is Auto and at least one variable is set (distinct by configuration).";
 
 const VARS: [&str; 5] = ["NO_COLOR", "CLICOLOR_FORCE", "CLICOLOR", "TERM", "CI"];
 
@@ -117,6 +117,28 @@ fn check_config(cfg: &Config, st: &Streams) -> Result<(), String> {
         if got != want {
             return Err(format!("terminal stream: choice = {:?}, expected {:?} for {}", got, want, show()));
         }
+        // the same terminal behind the public wrapper types
+        {
+            let boxed: Box<std::fs::File> = Box::new(pty.try_clone().map_err(|e| format!("dup pty: {e}"))?);
+            let got = AutoStream::choice(&boxed);
+            if got != want {
+                return Err(format!("terminal stream as Box<File>: choice = {:?}, expected {:?} for {}", got, want, show()));
+            }
+            let sb = AutoStream::auto(boxed);
+            if !sb.is_terminal() || sb.current_choice() != mode_of(want) {
+                return Err(format!("terminal stream as Box<File>: auto(): is_terminal {} current_choice {:?}, expected {:?} for {}", sb.is_terminal(), sb.current_choice(), mode_of(want), show()));
+            }
+            let mut f2 = pty.try_clone().map_err(|e| format!("dup pty: {e}"))?;
+            let r: &mut std::fs::File = &mut f2;
+            let got = AutoStream::choice(&r);
+            if got != want {
+                return Err(format!("terminal stream as &mut File: choice = {:?}, expected {:?} for {}", got, want, show()));
+            }
+            let sr = AutoStream::auto(r);
+            if !sr.is_terminal() || sr.current_choice() != mode_of(want) {
+                return Err(format!("terminal stream as &mut File: auto(): is_terminal {} current_choice {:?}, expected {:?} for {}", sr.is_terminal(), sr.current_choice(), mode_of(want), show()));
+            }
+        }
         let s = AutoStream::auto(f);
         if !s.is_terminal() {
             return Err("pty not reported as terminal".into());
@@ -139,6 +161,11 @@ fn check_config(cfg: &Config, st: &Streams) -> Result<(), String> {
             return Err(format!("Vec<u8>: new(global).current_choice() = {:?}, expected {:?} for {}", s.current_choice(), mode_of(want), show()));
         }
         for (name, f) in [("regular file", &st.file), ("pipe", &st.pipe_w)] {
+            let boxed: Box<std::fs::File> = Box::new(f.try_clone().map_err(|e| format!("dup: {e}"))?);
+            let got = AutoStream::choice(&boxed);
+            if got != want || AutoStream::auto(boxed).is_terminal() {
+                return Err(format!("{name} as Box<File>: choice = {:?}, expected {:?} for {}", got, want, show()));
+            }
             let f = f.try_clone().map_err(|e| format!("dup: {e}"))?;
             let got = AutoStream::choice(&f);
             if got != want {
@@ -377,6 +404,16 @@ fn run(args: &Args, rep: &mut Report) {
     }
     rep.add("clap-flag", true, "3 enum values x {as_choice, write_global, --color=v, --color v} + default + 4 rejected spellings", vec![acc]);
 
+    let mut acc = Acc::new();
+    let mut notes = vec![];
+    check_std_on_pty(&mut acc, &mut notes);
+    for n in &notes {
+        rep.note(n);
+    }
+    if acc.evals > 0 || acc.failed() {
+        rep.add("std-streams-on-pty", true, "the 3072 configurations of the decision cross product x {Stdout, StdoutLock, Stderr, StderrLock, Box<Stdout>, anstream::stderr()} in a child process whose stdout and stderr are a pty slave", vec![acc]);
+    }
+
     for (k, v) in saved {
         match v {
             Some(v) => std::env::set_var(&k, v),
@@ -389,7 +426,111 @@ fn run(args: &Args, rep: &mut Report) {
     }
 }
 
+/// Child mode: stdout and stderr of this process are a pty slave. Walks the cross product for the
+/// process's own standard streams (and their locks / boxes) and writes the outcome to a file.
+fn pty_child(result: &str) {
+    let four: [Option<Vec<u8>>; 4] = [None, Some(vec![]), Some(b"0".to_vec()), Some(b"1".to_vec())];
+    let terms: [Option<Vec<u8>>; 4] = [None, Some(vec![]), Some(b"dumb".to_vec()), Some(b"xterm-256color".to_vec())];
+    let cis: [Option<Vec<u8>>; 3] = [None, Some(vec![]), Some(b"true".to_vec())];
+    let mut n = 0u64;
+    let mut failure: Option<String> = None;
+    let term_ok = std::io::IsTerminal::is_terminal(&std::io::stdout()) && std::io::IsTerminal::is_terminal(&std::io::stderr());
+    'outer: for global in 0u8..4 {
+        for nc in &four {
+            for cf in &four {
+                for cc in &four {
+                    for term in &terms {
+                        for ci in &cis {
+                            let cfg = Config { global, env: [nc.clone(), cf.clone(), cc.clone(), term.clone(), ci.clone()], terminal: true, colorterm: None };
+                            apply_env(&cfg);
+                            let want = expected(&cfg);
+                            let got: [(&str, ColorChoice, bool); 6] = [
+                                ("Stdout", AutoStream::choice(&std::io::stdout()), AutoStream::auto(std::io::stdout()).is_terminal()),
+                                ("StdoutLock", AutoStream::choice(&std::io::stdout().lock()), AutoStream::auto(std::io::stdout().lock()).is_terminal()),
+                                ("Stderr", AutoStream::choice(&std::io::stderr()), AutoStream::auto(std::io::stderr()).is_terminal()),
+                                ("StderrLock", AutoStream::choice(&std::io::stderr().lock()), AutoStream::auto(std::io::stderr().lock()).is_terminal()),
+                                ("Box<Stdout>", AutoStream::choice(&Box::new(std::io::stdout())), AutoStream::auto(Box::new(std::io::stdout())).is_terminal()),
+                                // current_choice reports the mode: AlwaysAnsi for every colour-enabled decision
+                                ("anstream::stderr()", if anstream::stderr().current_choice() == mode_of(want) { want } else { anstream::stderr().current_choice() }, anstream::stderr().is_terminal()),
+                            ];
+                            for (name, g, t) in got {
+                                n += 1;
+                                if g != want || !t {
+                                    failure = Some(format!("{name} on a pty: choice = {:?} (is_terminal {t}), expected {:?} for {}", g, want, describe(&cfg)));
+                                    break 'outer;
+                                }
+                            }
+                        }
+                    }
+                }
+            }
+        }
+    }
+    let _ = std::fs::write(result, serde_json::to_string(&json!({"checked": n, "terminal": term_ok, "failure": failure})).unwrap());
+}
+
+/// run `pty_child` with a fresh pty slave as its stdout and stderr
+fn check_std_on_pty(acc: &mut Acc, rep_note: &mut Vec<String>) {
+    use std::os::fd::{AsRawFd, FromRawFd};
+    let master = match std::fs::OpenOptions::new().read(true).write(true).open("/dev/ptmx") {
+        Ok(m) => m,
+        Err(_) => {
+            rep_note.push("std-streams-on-pty: /dev/ptmx cannot be opened".into());
+            return;
+        }
+    };
+    let mut name = [0 as libc::c_char; 128];
+    let ok = unsafe { libc::grantpt(master.as_raw_fd()) == 0 && libc::unlockpt(master.as_raw_fd()) == 0 && libc::ptsname_r(master.as_raw_fd(), name.as_mut_ptr(), name.len()) == 0 };
+    if !ok {
+        rep_note.push("std-streams-on-pty: grantpt/unlockpt/ptsname failed".into());
+        return;
+    }
+    let fd = unsafe { libc::open(name.as_ptr(), libc::O_RDWR | libc::O_NOCTTY) };
+    if fd < 0 {
+        rep_note.push("std-streams-on-pty: the pty slave cannot be opened".into());
+        return;
+    }
+    let slave = unsafe { std::fs::File::from_raw_fd(fd) };
+    let result = rt::tmp_dir().join(format!("c09-pty-{}.json", std::process::id()));
+    let exe = match std::env::current_exe() {
+        Ok(e) => e,
+        Err(_) => return,
+    };
+    let (so, se) = match (slave.try_clone(), slave.try_clone()) {
+        (Ok(a), Ok(b)) => (a, b),
+        _ => return,
+    };
+    let status = std::process::Command::new(exe).arg("--pty-child").arg(&result).stdin(std::process::Stdio::null()).stdout(so).stderr(se).status();
+    drop(slave);
+    let out = std::fs::read(&result).ok().and_then(|b| serde_json::from_slice::<Value>(&b).ok());
+    let _ = std::fs::remove_file(&result);
+    match (status, out) {
+        (Ok(st), Some(v)) if st.success() => {
+            if v["terminal"].as_bool() != Some(true) {
+                rep_note.push("std-streams-on-pty: the child's stdout/stderr were not terminals".into());
+                return;
+            }
+            acc.evals = v["checked"].as_u64().unwrap_or(0);
+            acc.nontrivial_counted = acc.evals;
+            acc.samples.push(json!({"streams": ["Stdout", "StdoutLock", "Stderr", "StderrLock", "Box<Stdout>", "anstream::stderr()"]}));
+            if let Some(f) = v["failure"].as_str() {
+                acc.fail("std-streams-on-pty", json!({}), f.to_owned());
+            }
+        }
+        _ => rep_note.push("std-streams-on-pty: the child process could not be run".into()),
+    }
+}
+
 fn replay(sub: &str, case: &Value) -> Result<(), String> {
+    if sub == "std-streams-on-pty" {
+        let mut acc = Acc::new();
+        let mut notes = vec![];
+        check_std_on_pty(&mut acc, &mut notes);
+        return match acc.failure {
+            Some(f) => Err(f.message),
+            None => Ok(()),
+        };
+    }
     match sub {
         "colorterm" => check_colorterm().map(|_| ()),
         "clap-flag" => check_clap().map(|_| ()),
@@ -405,6 +546,11 @@ fn replay(sub: &str, case: &Value) -> Result<(), String> {
 }
 
 fn main() {
+    let argv: Vec<String> = std::env::args().collect();
+    if argv.get(1).map(|s| s.as_str()) == Some("--pty-child") {
+        pty_child(argv.get(2).map(|s| s.as_str()).unwrap_or("/dev/null"));
+        return;
+    }
     rt::quiet_panics();
     rt::main("C09", RULE, run, &replay)
 }
